@@ -134,3 +134,7 @@ VARIANTS += [
  V("c04-w2-clone-refreshes-the-source", "C04", "C04.W2", "iterator.go",
    "			dbi.batch.batchSeqNum = (base.SeqNum(len(i.batch.batch.data)) | base.SeqNumBatchBit)", "			i.batch.batchSeqNum = (base.SeqNum(len(i.batch.batch.data)) | base.SeqNumBatchBit)\n			dbi.batch.batchSeqNum = i.batch.batchSeqNum"),
 ]
+VARIANTS += [
+ V("c07-v1-iterator-reads-at-logseqnum", "C07", "C07.V1", "db.go",
+   "			seqNum = d.mu.versions.visibleSeqNum.Load()", "			seqNum = d.mu.versions.logSeqNum.Load()"),
+]
